@@ -19,7 +19,92 @@ def unhl(s):
     return [unh(x) for x in s.split(",")] if s else []
 
 
+def _expand_braces(pat):
+    """{a,b,c} alternatives (not nested) -> the list of patterns without braces"""
+    i = pat.find(b"{")
+    if i < 0:
+        return [pat]
+    j = pat.find(b"}", i)
+    if j < 0:
+        return [pat]
+    out = []
+    for alt in pat[i + 1:j].split(b","):
+        out += _expand_braces(pat[:i] + alt + pat[j + 1:])
+    return out
+
+
+def _tokens(pat):
+    """-> list of ('*',) | ('?',) | ('set', negated, chars/ranges) | ('lit', byte)"""
+    toks, i = [], 0
+    while i < len(pat):
+        c = pat[i:i + 1]
+        if c == b"*":
+            while pat[i:i + 1] == b"*":
+                i += 1
+            toks.append(("*",))
+            continue
+        if c == b"?":
+            toks.append(("?",))
+        elif c == b"[" and pat.find(b"]", i + 1) > 0:
+            j = pat.find(b"]", i + 1)
+            body = pat[i + 1:j]
+            neg = body[:1] in (b"!", b"^")
+            if neg:
+                body = body[1:]
+            ranges, k = [], 0
+            while k < len(body):
+                if k + 2 < len(body) and body[k + 1:k + 2] == b"-":
+                    ranges.append((body[k], body[k + 2]))
+                    k += 3
+                else:
+                    ranges.append((body[k], body[k]))
+                    k += 1
+            toks.append(("set", neg, ranges))
+            i = j
+        else:
+            toks.append(("lit", pat[i]))
+        i += 1
+    return toks
+
+
 def glob_match(pat, s):
+    """the syntax of the generated patterns: '*' / '**' any byte sequence, '?' one byte, [abc] [a-c] [!a] classes,
+    {a,b} alternatives, everything else literal"""
+    if b"{" in pat or b"[" in pat:
+        for alt in _expand_braces(pat):
+            toks = _tokens(alt)
+            m = len(s)
+            cur = [False] * (m + 1)
+            cur[0] = True
+            for t in toks:
+                nxt = [False] * (m + 1)
+                if t[0] == "*":
+                    seen = False
+                    for j in range(m + 1):
+                        seen = seen or cur[j]
+                        nxt[j] = seen
+                else:
+                    for j in range(m):
+                        if not cur[j]:
+                            continue
+                        b_ = s[j]
+                        if t[0] == "?":
+                            ok = True
+                        elif t[0] == "lit":
+                            ok = b_ == t[1]
+                        else:
+                            inside = any(lo <= b_ <= hi for lo, hi in t[2])
+                            ok = inside != t[1]
+                        if ok:
+                            nxt[j + 1] = True
+                cur = nxt
+            if cur[m]:
+                return True
+        return False
+    return _glob_simple(pat.replace(b"**", b"*"), s)
+
+
+def _glob_simple(pat, s):
     """'*' any byte sequence, '?' one byte, everything else literal (the generated pattern class)."""
     n, m = len(pat), len(s)
     # dp over pattern positions
@@ -39,6 +124,12 @@ def glob_match(pat, s):
                     nxt[j + 1] = True
         cur = nxt
     return cur[m]
+
+
+def class_on_non_ascii(match, names):
+    """gobwas/glob matches character classes rune-wise; on names that are not valid UTF-8 its result is the
+    library's own business (not modelled, not judged): such a case is skipped"""
+    return b"[" in match and any(any(b_ >= 0x80 for b_ in x) for x in names)
 
 
 def eff_count(count):
@@ -157,21 +248,27 @@ def oracle(stores, cases, impl):
             if "sorted=1" not in out:
                 fails.append(dict(name="store-" + cid, case=dict(impl=out), what="engine iteration is not in byte order"))
             continue
-        if kind == "K":
+        if kind in ("K", "KX"):
             cmd, typ, rev, table, start, count, match = c[1], c[2], c[3] == "1", unh(c[4]), unh(c[5]), int(c[6]), unh(c[7])
             pre = table + b":"
             names = [x for x in st["T"].get(typ, []) if x.startswith(pre)]
+            if class_on_non_ascii(match, names):
+                hist["skipped: class pattern over non-UTF-8 names"] = hist.get("skipped: class pattern over non-UTF-8 names", 0) + 1
+                continue
             exp = expected_seq(names, pre + start, rev, match)
-            hk = "%s %s %s count=%s%s" % (cmd, typ, "rev" if rev else "fwd", "N" if count > 5 else count, " match" if match else "")
+            hk = "%s %s %s count=%s%s" % (cmd, typ, "rev" if rev else "fwd", "N" if count > 5 else count, (" match-ext" if kind == "KX" else " match") if match else "")
             hist[hk] = hist.get(hk, 0) + 1
             if len(exp) >= 2:
                 nontrivial.add(vlib.case_hash("\t".join(c) + repr(sorted(names))))
             fails += check_iteration(cid, c, out, exp, count, lambda it: it[len(pre):])
-        elif kind == "E":
+        elif kind in ("E", "EX"):
             ct, rev, raw, start, count, match = c[1], c[2] == "1", unh(c[5]), unh(c[6]), int(c[7]), unh(c[8])
             elems = st["C"].get((ct, raw), [])
+            if class_on_non_ascii(match, elems):
+                hist["skipped: class pattern over non-UTF-8 names"] = hist.get("skipped: class pattern over non-UTF-8 names", 0) + 1
+                continue
             exp = expected_seq(elems, start, rev, match)
-            hk = "%sscan %s count=%s%s" % (ct, "rev" if rev else "fwd", "N" if count > 5 else count, " match" if match else "")
+            hk = "%sscan %s count=%s%s" % (ct, "rev" if rev else "fwd", "N" if count > 5 else count, (" match-ext" if kind == "EX" else " match") if match else "")
             hist[hk] = hist.get(hk, 0) + 1
             if len(exp) >= 2:
                 nontrivial.add(vlib.case_hash("\t".join(c) + repr(sorted(elems))))
@@ -210,6 +307,9 @@ def oracle(stores, cases, impl):
             typ, table, count, match = c[1], unh(c[2]), int(c[3]), unh(c[4])
             pre = table + b":"
             raws = [x for x in st["T"].get(typ, []) if x.startswith(pre)]
+            if class_on_non_ascii(match, raws):
+                hist["skipped: class pattern over non-UTF-8 names"] = hist.get("skipped: class pattern over non-UTF-8 names", 0) + 1
+                continue
             exp = []
             if typ == "kv":
                 for raw in sorted(raws):
@@ -478,7 +578,7 @@ def run(ctx):
         for st in stores.values():
             if st["eng"]:
                 engines[st["eng"]] = engines.get(st["eng"], 0) + 1
-        ids = [k for k in cases if cases[k][0] in ("K", "E", "S", "F", "G")]
+        ids = [k for k in cases if cases[k][0] in ("K", "E", "S", "F", "G", "KX", "EX")]
         for cid in ids[:2] + ids[-1:]:
             samples.append(dict(case=cases[cid], impl=(impl.get(cid) or "")[:400]))
 
@@ -517,7 +617,11 @@ def run(ctx):
              "E = H/S/ZSCAN(+REV), each iterated by feeding the cursor back until empty (bound |P|+3), COUNT in {1,2,3,5,|P|,|P|+1,absent,random}, start cursor "
              "empty / an element / element+0x00 / element minus last byte / above all, MATCH from {*,?,literal} patterns in 35%; R = range builders; "
              "S = the same iteration over the redis protocol against a live 1..4-partition in-process server (model: per-partition stores, merged cursor, COUNT split); "
+             "KX/EX/G = the same with MATCH patterns from the rest of the glob syntax ({a,b} alternatives, [ab] [a-k] [!a] classes, **), direct oracle only; "
+             "xpt = a store scanned by every command with 11 patterns of that syntax incl. wildcard-free alternatives (user_{1,3,5}, k{1,2}); "
+             "xsp = a store with runs of 29 non-matching names between matching ones (COUNT 1..5); "
              "q.* = concurrent leg: 8 goroutines iterate the same hash/set/zset (forward and reverse) at the same time, each with its own MATCH pattern and COUNT, "
+             "6 more iterate three DIFFERENT sets/hashes/zsets of 1100 recognisable members with COUNT 1024/1500/2000/5000, and pages returned by RockDB.S/H/ZScan are held across a scan of another collection and compared with their copy, "
              "2 s (thorough 8 s) per engine (mem, pebble); every completed iteration must be exactly its matching subset, once, in order; "
              "vbig = one live 2-partition server with a 5600-key table (pipelined SETs), SCAN/ADVSCAN(+REV) with COUNT 4999, 5000, 5001, 5200, 6000, 10000, 10001, 12000 and none; "
              "F = FULLSCAN per type (direct oracle only); one store with 5003 keys and COUNT around MAX_BATCH_NUM; "
